@@ -3,6 +3,8 @@
 Monitor shape: pairwise algebra.  Intersection / Jaccard are recomputed independently from the operands' exported arrays;
 compatibility is decided from the public geometry and hash strategy; operands are snapshotted before and after every call.
 """
+import os
+
 from .. import bl, gen, refimpl
 from ..core import Prop, Workload
 
@@ -249,6 +251,27 @@ def wl_bloom_pairs(ctx, rng, case):
             ctx.check(snap(A, pa) == sa and all(A.check(kx) for kx in keys if kx in (case.desc.get("_added_a") or [])),
                       f"a is no longer usable after the result of a.{name}(a) was dropped")
             ctx.count("self_operand_checks")
+        # ---- two on-disk handles whose PATHS are equal but whose files are not (the name was taken over by a newer file of the same
+        # geometry - write-then-rename - while the older handle stayed open): what counts is what each handle holds
+        if pa is not None and compatible and rng.random() < 0.5:
+            newer = P.BloomFilter(est, rate, **bl.kw_hash(hf))
+            for kx in rng.sample(keys, min(len(keys), 3)):
+                newer.add(kx)
+            newer.add("only-in-the-newer-file")
+            tmp = sc.path("published")
+            newer.export(tmp)
+            os.replace(tmp, pa)
+            A2 = P.BloomFilterOnDisk(pa, **bl.kw_hash(hf))
+            objs.append(A2)
+            b1, b2 = bl.bits_of(newer), ba
+            cu = popcount(bytes(x | y for x, y in zip(b1, b2)))
+            wantj = 1.0 if cu == 0 else popcount(bytes(x & y for x, y in zip(b1, b2))) / cu
+            for tag, j in (("older.jaccard_index(newer)", A.jaccard_index(A2)), ("newer.jaccard_index(older)", A2.jaccard_index(A))):
+                ctx.check(j is not None and abs(j - wantj) <= 1e-12, f"{tag} of two handles with the same path but different files is not |A and B| / |A or B|", got=j, want=wantj)
+            i4 = A.intersection(A2)
+            ctx.check(i4 is not None and bl.bits_of(i4) == bytes(x & y for x, y in zip(b1, b2)), "intersection of two handles with the same path but different files is not the AND of what they hold")
+            ctx.count("pairs_of_handles_with_one_path_and_two_files")
+            sa = None  # (the file behind the name changed: the raw-file part of the snapshot of A no longer applies)
         # foreign operands
         for foreign in (1, "x", None, [1], P.CountMinSketch(width=2, depth=2), P.CuckooFilter(capacity=2)):
             for name in ("intersection", "union", "jaccard_index"):
@@ -257,7 +280,7 @@ def wl_bloom_pairs(ctx, rng, case):
                     ctx.fail(f"{name} accepted a foreign operand of type {type(foreign).__name__}")
                 except TypeError:
                     ctx.count("foreign_type_rejections")
-        ctx.check(snap(A, pa) == sa, "a rejected operation modified the receiver")
+        ctx.check(sa is None or snap(A, pa) == sa, "a rejected operation modified the receiver")
         case.nontrivial = True
     finally:
         for o in objs:
